@@ -56,6 +56,11 @@ func DrawCase(t *rapid.T, o gen.GenOpts) *drive.Case {
 			for i := 0; i < na; i++ {
 				res := map[string]any{}
 				for _, r := range n.Results {
+					// a declared field may be left out of the answer: the variable
+					// then keeps the value it has
+					if rapid.IntRange(0, 3).Draw(t, "omit") == 0 {
+						continue
+					}
 					if strings.HasPrefix(r, "n") {
 						res[r] = int64(rapid.IntRange(0, 3).Draw(t, "rv"))
 					} else {
